@@ -10,6 +10,9 @@ s2 = str(parse(s1)) and s3; pickle.loads(pickle.dumps(t)) renders like t.
 
 from __future__ import annotations
 
+import asyncio
+import json
+import os
 import pickle
 from typing import Any
 
@@ -70,6 +73,9 @@ def odd_spellings() -> list[dict[str, Any]]:
         "{{ [0] }}{{ [0].a }}{{ [1][2] }}{{ h[0] }}{{ [-1] }}", "{{ h[true] }}{{ h[for] }}{{ h[for][true] }}{{ arr[nil] }}{{ h[empty] }}{{ h[with].x }}", "{{ [true] }}{{ [for].size }}",
         "{% for x in arr, %}[{{ x }}]{% endfor %}", "{% assign y = arr, %}{{ y | size }}{{ y[0] | size }}", "{{ 1, | size }}{{ 'a', | join: '+' }}", "{% for x in arr, xs %}[{{ x | size }}]{% endfor %}",
         "{{ 1e4299 | size }}", "{{ -1e4298 | size }}", "{{ 12345e4294 | size }}", "{{ 0e9999 }}{{ 1e0 }}{{ 5E2 }}",
+        "{% liquid echo ['true']\necho [0]\necho h[true]\necho [for]\necho [0].a\necho h[with] %}", "{% liquid assign z = [true]\necho z\nassign w = [0]\necho w\nif [with]\necho 'w'\nendif %}",
+        "{% liquid echo ['true'] %}", "{% liquid echo [0] %}", "{% liquid echo h[true] %}", "{% liquid echo [true] %}", "{% liquid echo h[h['for']] %}",
+        "{{ 1.0e999 }}", "{{ -1.0e999 }}", "{{ 1.5e400 | size }}", "{% assign f = 2.5e999 %}{{ f }}{% if f > 1 %}big{% endif %}", "{{ 1e999 }}", "{{ 1.0e-999 }}",
         "{{ 2 }}{{ 2.0 }}{{ 15 | divided_by: 7 }}{{ 15 | divided_by: 7.0 }}{% for i in (1..3) limit: 3 %}{{ i }}{% endfor %}{{ 3.0 | plus: 3 }}{{ 0 | default: 'd' }}{{ 0.0 | default: 'd' }}",
     ]
     # empty branches whose tags carry whitespace control: dropping the tag drops its trimming
@@ -83,6 +89,58 @@ def odd_spellings() -> list[dict[str, Any]]:
     return [{"source": s_, "templates": templates, "data": data} for s_ in srcs]
 
 
+_XPROC = r"""
+import pickle, sys, json, base64
+from liquid2 import DictLoader
+from liquid2.shopify import Environment
+job = json.loads(sys.stdin.read())
+env = Environment(loader=DictLoader(job["templates"]))
+t = env.from_string(job["source"], name="main")
+sys.stdout.write(base64.b64encode(pickle.dumps(t)).decode())
+"""
+
+
+def xproc_cases() -> list[dict[str, Any]]:
+    """Templates pickled by another interpreter (a different PYTHONHASHSEED, so nothing derived from hash() of a string
+    survives) and rendered here, together with partials parsed here: names that must agree across the two (cycle groups,
+    counters, macros, blocks) and every odd spelling."""
+    templates = {
+        "cyc": "{% cycle 'a', 'b' %}{% cycle g: 'a', 'b' %}{% cycle 1, 2 %}{% increment n %}",
+        "base": "<{% block a %}A{% cycle 'a', 'b' %}{% endblock %}{% block b %}B{% endblock %}>",
+        "lib": "{% macro m x %}m{{ x }}{% cycle 'a', 'b' %}{% endmacro %}",
+    }
+    data = {"g": "G", "xs": [1, 2, 3], "h": {"k": 1}}
+    srcs = [
+        "{% cycle 'a', 'b' %}{% include 'cyc' %}{% cycle 'a', 'b' %}{% include 'cyc' %}{% cycle 'a', 'b' %}",
+        "{% cycle g: 'a', 'b' %}{% include 'cyc' %}{% cycle g: 'a', 'b' %}{% cycle 1, 2 %}{% include 'cyc' %}",
+        "{% for x in xs %}{% cycle 'a', 'b' %}{% include 'cyc' %}{% endfor %}",
+        "{% increment n %}{% include 'cyc' %}{% increment n %}{% decrement n %}",
+        "{% extends 'base' %}{% block a %}{% cycle 'a', 'b' %}{{ block.super }}{% cycle 'a', 'b' %}{% endblock %}",
+        "{% include 'lib' %}{% cycle 'a', 'b' %}{% call m 1 %}{% call m 2 %}{% cycle 'a', 'b' %}",
+        "{% for x in xs %}{% for y in xs %}{% cycle x: 1, 2 %}{% endfor %}{% include 'cyc' %}{% endfor %}",
+        "{% assign k = 'k' %}{{ h[k] }}{{ h.k }}{{ xs | map: 'a' | size }}{% capture c %}{% include 'cyc' %}{% endcapture %}{{ c }}{{ c }}",
+        "{% render 'cyc' %}{% render 'cyc' %}{% cycle 'a', 'b' %}",
+    ]
+    out = [{"source": s_, "templates": templates, "data": data, "xproc": hs} for s_ in srcs for hs in (1, 2)]
+    out += [dict(c, xproc=1) for c in odd_spellings()[::3]]
+    return out
+
+
+def _xproc_template(case: dict[str, Any]):
+    import base64
+    import subprocess
+    import sys as _sys
+
+    env = dict(os.environ, PYTHONHASHSEED=str(case["xproc"]))
+    p = subprocess.run(
+        [_sys.executable, "-c", _XPROC], input=json.dumps({"templates": case["templates"], "source": case["source"]}),
+        capture_output=True, text=True, env=env, timeout=120, check=False,
+    )
+    if p.returncode != 0:
+        return None, p.stderr.strip().splitlines()[-1] if p.stderr.strip() else "exit %d" % p.returncode
+    return pickle.loads(base64.b64decode(p.stdout)), None
+
+
 def _spaces(tier: str, seed: int) -> dict[str, ps.SubSpace]:
     key = (tier, seed)
     if _STATE.get("key") != key:
@@ -91,6 +149,8 @@ def _spaces(tier: str, seed: int) -> dict[str, ps.SubSpace]:
         sp.append(ps.corpus_space())
         odd = odd_spellings()
         sp.append(ps.SubSpace("odd-spellings", len(odd), lambda i: odd[i]))
+        xp = xproc_cases()
+        sp.append(ps.SubSpace("xproc-pickle", len(xp), lambda i: xp[i]))
         _STATE["key"] = key
         _STATE["spaces"] = {s.name: s for s in sp}
         n = grammar.Names(seed)
@@ -180,6 +240,20 @@ def check_case(case: dict[str, Any], res: ShardResult | None) -> list[tuple[str,
     if res is not None and (str(t0) != src or any(o[0] == "ok" and o[1] for o in base)):
         res.nontrivial.add(h64(src))
     # pickle
+    if case.get("xproc"):
+        t_x, err = _xproc_template(case)
+        if t_x is None:
+            out.append((f"C12:xproc-pickle-raises:{ps.norm_msg(str(err))}", "another interpreter parses and pickles the template", err))
+        else:
+            t_x.env.loader = env.loader  # partials are parsed by this interpreter
+            for d, b in zip(data, base):
+                o = impl.outcome(t_x.render, **d)
+                o2 = impl.outcome(lambda **kw: asyncio.run(t_x.render_async(**kw)), **d)
+                if res is not None:
+                    res.evaluations += 2
+                if o != b or o2 != b:
+                    out.append(("C12:xproc-pickle-differs", {"render": b, "data": d}, {"render": o, "async": o2, "hashseed": case["xproc"]}))
+                    break
     try:
         t_p = pickle.loads(pickle.dumps(t0))
     except Exception as e:  # noqa: BLE001
